@@ -299,7 +299,7 @@ def unit_main():
                 sb = st.copy(); sb.pc.append(k.z == kind); yield sb, mk(sb)
         if feasible(st.pc, k.z == 2):
             # any cutplace error: a rejected CID (InterfaceError), a CID file that cannot be parsed (DataFormatError), a rejected row, a failed check
-            for cls in ("InterfaceError", "DataFormatError", "FieldValueError", "CheckError", "CutplaceError"):
+            for cls in ("InterfaceError",):      # the only cutplace error process() lets out (its own contract: a rejected CID; since repair F-45 that includes CID files that cannot be parsed)
                 sb = st.copy(); sb.pc.append(k.z == 2); yield from raise_new(ex, sb, cls)
         st.pc.append(k.z == 0); yield st, st.ghost["r"]
     def setup(ex, st):
@@ -403,11 +403,21 @@ def unit_c18_table():
             ecid = w("ecid.csv", "d,format,delimited\nf,id,,,,Integer\nf,name\nc,some,DistinctCount,name >= 1\n")
             def ecases():
                 for fl in (["accepted"], ["missing"], ["directory"], ["accepted", "missing"], ["missing", "accepted"]): yield fl
+                # with a limit of 0 no row is validated, but the end-of-data checks still give their verdict on the empty set (as through the API)
+                for fl in (["accepted"], ["accepted", "field"]): yield ["--until", "0"] + fl
             def echeck(fl):
+                opts = fl[:2] if fl[0] == "--until" else []; fl = fl[len(opts):]
                 with contextlib.redirect_stderr(io.StringIO()):
-                    try: rc = applications.main(["cutplace", ecid] + [files[f][0] for f in fl])
+                    try: rc = applications.main(["cutplace"] + opts + [ecid] + [files[f][0] for f in fl])
                     except SystemExit as e: rc = ("exit", e.code)
-                want = 3 if any(files[f][1] == 3 for f in fl) else 0
+                if opts:
+                    from cutplace import interface, validio, errors
+                    want = 0
+                    for f in fl:
+                        try: validio.validate(interface.Cid(ecid), files[f][0], validate_until=0)
+                        except errors.DataError: want = 1
+                    if want != 1: return {"expected": "the API rejects zero validated rows under DistinctCount name >= 1", "observed": "accepted"}
+                else: want = 3 if any(files[f][1] == 3 for f in fl) else 0
                 return None if rc == want else {"expected": "exit %d" % want, "observed": "exit %r" % (rc,)}
             r4 = sweep("C18/table/an unreadable file exits with 3 also under a CID whose end-of-data check fails on zero rows", ecases(), echeck, "bounded", "CID with DistinctCount name >= 1 x 5 file lists over {accepted, missing, directory}",
                        describe=lambda c: {"files": c}, function="applications.main + validio.BaseValidator.__exit__", unit="C18.table")
